@@ -188,6 +188,9 @@ def run(c):
         add("bound", H, "bound", c.seed * 1000 + 300 + i, max(1, ngames // shards))
     for i in range(na):
         add("bound_asan", HA, "bound", c.seed * 1000 + 400 + i, max(1, ngames_asan // na))
+    npath = int((800 if quick else 40000) * S)
+    for i in range(shards):
+        add("pathstage", H, "pathstage", c.seed * 1000 + 500 + i, max(1, npath // shards))
     import time
     t_h = time.time()
     res = core.run_many(cmds, timeout=3600 if quick else 12 * 3600, jobs=max(2, core.NCPU // 2))
@@ -197,6 +200,8 @@ def run(c):
     c.absorb("inprocess-filter-asan-ubsan", G["filter_asan"])
     c.absorb("distance-bound", G["bound"])
     c.absorb("distance-bound-asan-ubsan", G["bound_asan"])
+    c.absorb("proof-game-stage-on-path-lines", G["pathstage"])
+    pst = core.merge_stats(G["pathstage"])
     fst = core.merge_stats(G["filter_same"] + G["filter_extra"] + G["filter_asan"])
     bst = core.merge_stats(G["bound"] + G["bound_asan"])
     inproc = {}
@@ -312,6 +317,7 @@ def run(c):
                    generator={k[4:]: v for k, v in bst.items() if k.startswith("gen_")}),
         proofs_replayed=rst.get("proofs_replayed", 0), proofs_from_first_iteration=proofs_first, proofs_from_iterated_mode=len(iproofs),
         proof_plies_total=rst.get("proof_plies", 0), longest_proof_plies=rst.get("max_proof_plies", 0),
+        path_stage_lines=pst.get("pathstage_lines", 0), path_stage_proofs_replayed=pst.get("pathstage_proofs", 0), path_stage_unresolved=pst.get("pathstage_unresolved", 0),
         exhaustive=False, inconclusive_allowed=len(sample) + 2)
     c.assumptions += ["refchess correct (perft self-test each process); the SAN reader of the replayer is validated by accept/reject self tests each process",
                       "positions with fewer than 26 men are not explored (kernel search space)",
